@@ -49,6 +49,8 @@ class Fill(CellModifierInput):
             values = self.data
             for value in values:
                 try:
+                    if not isinstance(value, syntax_node.ValueNode):
+                        raise ValueError("not a number")
                     value._convert_to_int()
                     if value.value is not None:
                         assert value.value >= 0
